@@ -660,7 +660,7 @@ Lemma conf_op_obj fc S frs root sels j :
 Proof.
   unfold is_object, conf_op, conf_op_gen, conf_val. intros Ho H.
   destruct fc as [|[|k]]; try (destruct j; simpl in H; discriminate H).
-  assert (H' : conf_val_gen leaf_conf false (Datatypes.S k) S frs (TNamed root) [(false, sels)] j = true /\
+  assert (H' : conf_val_gen leaf_conf false false (Datatypes.S k) S frs (TNamed root) [(false, sels)] j = true /\
                j <> JNull)
     by (destruct j; try discriminate H; split; try exact H; discriminate).
   clear H. destruct H' as [H' Hn]. cbn [conf_val_gen] in H'.
